@@ -130,6 +130,11 @@ def worker(job, extra):
         Q.tie = spec.get('tie', 'native')
         Q.nev = 0; Q.cap = cap; Q.log = []; Q.maxblocked = 0; Q.first = {Q.statetracker.hash_state(): 0.0}
         res['Q'] = Q
+        if job.get('prefix'):
+            # mixed drivers on one Simulation: a time-limited run first (it may pass over the formation of a deadlock), then
+            # simulate_until_deadlock, which must stop at its first event after which a deadlock exists
+            Q.simulate_until_max_time(round(random.Random(seed * 3 + 1).uniform(0.5, 8.0), 3))
+            res['n0'] = len(Q.log)
         Q.simulate_until_deadlock()
         return Q
     Q, st, cr = guarded(go, 60)
@@ -139,6 +144,11 @@ def worker(job, extra):
     res['events'] = len(log)
     res['blocks_seen'] = Qx.maxblocked if Qx is not None else 0
     flags = [d for t, d, nb in log]
+    if job.get('prefix'):
+        if 'n0' not in res:
+            res['status'] = st = 'prefix_' + st; flags = []   # cap / crash before the deadlock driver was entered
+        else:
+            flags = flags[res['n0']:]; log = log[res['n0']:]
     if st == 'crash':
         res['viol'].append(('crash_in_simulate_until_deadlock', repr(cr)))
     elif st == 'cap':
@@ -152,6 +162,11 @@ def worker(job, extra):
         elif any(flags[:-1]):
             res['viol'].append(('late_deadlock', (log[flags.index(True)][0], log[-1][0])))
         res['outcome'] = 'deadlock'
+        if job.get('prefix'):
+            res['ttd_states'] = 0; res['mixed'] = 1
+            if res['viol']: res['spec'] = spec
+            res['sample'] = {'seed': seed, 'mixed_drivers': True, 'events': len(log)}
+            return res
         tdl = log[-1][0]
         exp = {s_: float(tdl) - float(t0) for s_, t0 in Qx.first.items()}
         # exact=k rounds every date to k significant digits: compare at that resolution (dates here reach several thousand)
@@ -176,7 +191,7 @@ def main(tier, vseed, replay=None):
         payload = json.load(open(replay))
         jobs = [payload['job']]
     else:
-        jobs = [{'seed': vseed * 1000003 + k} for k in range(runs)]
+        jobs = [dict({'seed': vseed * 1000003 + k}, **({'prefix': True} if k % 6 == 5 else {})) for k in range(runs)]
         jobs += [{'seed': 7, 'spec': sp_} for sp_ in directed_specs()]
     results, failures = runner.run_shards('ciwmon.special.c18', jobs, {'cap': cap}, 900 if tier == 'quick' else 4 * 3600)
     for r in results:
@@ -185,6 +200,7 @@ def main(tier, vseed, replay=None):
         S.counters['runs'] += 1
         S.counters['status_' + r['status']] += 1
         S.counters['events_with_oracle_evaluated'] += r['events']
+        if r.get('mixed'): S.counters['mixed_driver_runs_judged'] += 1
         if r.get('outcome') == 'deadlock':
             S.counters['deadlocks_reached'] += 1
             S.counters['times_to_deadlock_states'] += r.get('ttd_states', 0)
